@@ -170,6 +170,7 @@ def check(tier, seed):
     # the REAL receiver-role provider over loopback TCP (real time): a faulty peer at each stage of the hand-shake, with and
     # without TLS, between two healthy peers; the model's prediction for healthy / first-ping-failure / healthy is a full pool
     rows = [("plain-" + f, 0, f) for f in ("silent", "garbage", "partial", "hangup")] + [("tls-" + f, 1, f) for f in ("silent", "garbage", "partial", "tlssilent", "hangup")]
+    rows.append(("churn", 0, "churn"))
     rin = os.path.join(V.WORK, "c10_recv.in")
     rout = os.path.join(V.WORK, "c10_recv.out")
     open(rin, "w").write("".join("RR %s tls=%d fault=%s\n" % r for r in rows))
@@ -191,10 +192,16 @@ def check(tier, seed):
         for name, _, _ in rows:
             l = got.get(name, "ROW %s missing" % name)
             f = dict(x.split("=") for x in l.split()[2:] if "=" in x)
+            if name == "churn":
+                # sessions coming and going while the manager is asked to describe itself: nothing may stall
+                if f.get("cycles") != "60" or f.get("stalled") != "-" or f.get("describe") != "1" or f.get("shut") != "1":
+                    rbad.append((name, l))
+                continue
             if f.get("first") != "1" or f.get("healed") != "1" or f.get("badclosed") != "1" or f.get("shut") != "1" or f.get("live") != "0" or int(f.get("max", "9")) > 2:
                 rbad.append((name, l))
     ck.obligation("real receiver-role provider over TCP, with and without TLS: a peer that goes silent, sends garbage, stops mid-record, completes TLS only, or hangs up does not keep its slot; "
-                  "the pool of 2 returns to full strength, never exceeds 2, and shutdown closes everything (%d rows; model: live=2 then live=0 open=0)" % len(rows), not rbad, "; ".join(x[1] for x in rbad)[:600])
+                  "the pool of 2 returns to full strength, never exceeds 2, and shutdown closes everything; 60 cycles of session death and replacement on a pool of 3 while 8 goroutines keep calling "
+                  "Describe()/CanAcceptConnections() never stall (%d rows; model: live=2 then live=0 open=0)" % len(rows), not rbad, "; ".join(x[1] for x in rbad)[:600])
     if rbad and not mon:
         name, l = rbad[0]
         row = [r for r in rows if r[0] == name]
@@ -229,6 +236,8 @@ def replay(data):
         print(l)
         f = dict(x.split("=") for x in l.split()[2:] if "=" in x)
         ok = f.get("first") == "1" and f.get("healed") == "1" and f.get("badclosed") == "1" and f.get("shut") == "1" and f.get("live") == "0" and int(f.get("max", "9")) <= 2
+        if data["row"][0] == "churn":
+            ok = f.get("cycles") == "60" and f.get("stalled") == "-" and f.get("describe") == "1" and f.get("shut") == "1"
         return 0 if ok else 1
     if "history" not in data:
         print("nothing to execute: " + "; ".join(data.get("broken", [])))
